@@ -1,8 +1,26 @@
 """C11 — minimisers never end worse than they started and converge on convex bowls."""
-import math
+import math, os
+import vbuild
 from vcheck import Case, hx, flist, parse_vals
 
 PID = "C11"
+COQ = os.path.join(vbuild.VERIF, "coq")
+
+
+def regenerate():
+    """T-tie: Sign(double) and Sign(double,double) of src/Special_Functions.cpp - the only straight-line callees of Bracket (the denominator
+    2.0*Sign(max(|q-r|,TINY), q-r)) and of Brent::Minimize (Sign(tol1, xm-x), Sign(tol1, d)) - are translated from clang's AST into
+    coq/Gen_C11_Formulas.v on every run; coq/C11_GenTie.v proves them equal to the terms sign1 / sign2 the model is written with."""
+    import cxx2gallina as c
+    try:
+        txt = c.translate_all(os.path.join(vbuild.REPO, "src", "Special_Functions.cpp"),
+                              [c.Fn("Sign", ["double"], "g_Sign"), c.Fn("Sign", ["double", "double"], "g_Sign2")],
+                              [os.path.join(vbuild.REPO, "include")])
+    except c.Unsupported as e:
+        raise RuntimeError(f"tools/cxx2gallina.py cannot translate Sign of src/Special_Functions.cpp: {e}")
+    ch = c.write_if_changed(os.path.join(COQ, "Gen_C11_Formulas.v"), txt)
+    return "Gen_C11_Formulas.v regenerated from the current source" if ch else ""
+
 EPS = 2.0 ** -53
 RULE = ("one case = one call (fmin | fmax | fpair | nm | nmd | nm1 with objective, start, step/tolerance), or a run of calls in one process on one or several "
         "Minimization objects with 1-D calls in between, the vector arguments given by the caller or being public members of the objects (current_simplex, a row of it, y; "
@@ -42,6 +60,13 @@ LEVEL_TEXT = ("Theorems (Coq, abstract number type with only the laws of a total
               "REFUTED, hence not claimed: 'Find_Minimum's result is not worse than every point it evaluated' (C11_find_minimum_best_of_all_evaluated_refuted, witness on the integer instance): Bracket's early return 'fu > fb: cx = u; return' drops the old cx where a value "
               "below f(bx) had been seen, and Brent searches [ax,u] only. Replayed on the C++ in doubles: f = 3 for x < 0.5, 1 on (0.9,1.1), 0.9 for x > 2.5, 5 elsewhere; Find_Minimum(f, 0, 1, 1e-6) evaluates f(2.618034) = 0.9 and returns x = 0.9715 with f = 1. "
               "This is not a violation of the property (which speaks of the two initial abscissae: 3 and 1). "
+              "Seventh pass. Over the reals, for EVERY objective (multimodal, discontinuous): Brent::Minimize never leaves its bracket - each trial point lies in the current [a,b] and differs from x, [a,b] only shrinks, "
+              "and the returned point and all of Brent's evaluations lie between the outer abscissae of the bracket (C11_brent_step_shrinks_bracket, C11_brent_stays_in_bracket, C11_find_minimum_in_bracket). "
+              "Nelder-Mead geometry over the reals: psum holds the column sums of the simplex on entry and after every pass of the loop (C11_psum_initial, C11_psum_is_column_sum_in_every_pass: the incremental update in amotry and the recomputation after a shrink), "
+              "so the trial points are c + fac*(p_hi - c) with c the centroid of the other vertices - reflection for -1, expansion for 2, contraction for 0.5 (C11_amotry_trial_point, C11_amotry_reflects_about_centroid). "
+              "The default tolerance 3e-8 of Find_Minimum / Find_Maximum is a model term (default_tol) compared on every run; calls without a tolerance converge on strictly unimodal objectives within 2*(3e-8*|x| + 2^-52) (C11_find_minimum_default_converges, C11_find_maximum_default_converges; reals). "
+              "T-tie: Sign(double) and Sign(double,double), the only straight-line callees of Bracket and Brent::Minimize, are translated from the source on every run and proved equal to the model's sign1 / sign2 (C11_generated_Sign_is_model, C11_generated_Sign2_is_model, C11_bracket_u_uses_generated_Sign). "
+              "The Brent containment and the Nelder-Mead geometry are theorems about the real-number instance only (with rounding psum drifts from the column sums and a trial point can land one ulp outside [a,b]); on the implementation they are covered by the bit-for-bit comparison of the evaluation traces, there is no separate S4 predicate. "
               "NOT theorems: convergence of Nelder-Mead to the minimiser of a quadratic bowl within the tolerance (no such theorem exists for the method); the 1-D distance bound under rounding (the real-number theorem does not speak about objectives that are flat in doubles "
               "around the minimiser: S4 adds the objective's resolution to the bound); termination of the bracketing loop (no cap in the source) and that Brent does not hit ITMAX. "
               "These clauses are decided on the implementation (S4) on the quantifier's classes: quadratic bowls with condition number up to 1e4 in 1..6 dimensions, quartic-flat, "
@@ -54,7 +79,9 @@ LEVEL_TEXT = ("Theorems (Coq, abstract number type with only the laws of a total
               "and nfunc/mpts/ndim/fmin (counters at NMAX, sizes of another problem) between calls, runs in which a call is abandoned by a throwing objective (at every vertex of the initial loop and 1..60 evaluations into the iteration) "
               "and the object is used again (the retry, the same arguments with another objective, restarts), every later call judged by all clauses and against a fresh object; profiled objectives F(x) = min_z g(x,z) whose evaluation runs Nelder-Mead "
               "(fresh or reused inner object) or Find_Minimum inside the outer run (re-entrancy), judged on the values the objective returned during and after the run.")
-LEVEL_NOTE = ("Coq 8.16.1 kernel; order-theoretic theorems are axiom-free (OrdLaws: total order on the objective's values, i.e. NaN-free objectives); find_maximum_not_worse and the four 1-D convergence theorems are over R (standard real-number axioms, "
+LEVEL_NOTE = ("coverage/C11.md lists function by function what is modelled line by line, by specification, or not at all; Gen_C11_Formulas.v (Sign, Sign(x,y)) is regenerated from src/Special_Functions.cpp by tools/cxx2gallina.py on every run, "
+              "the tie lemmas carry the premise that the literals 0.0 and 1.0 are the constants 0 and 1 of the number instance (proved for the reals); "
+              "Coq 8.16.1 kernel; order-theoretic theorems are axiom-free (OrdLaws: total order on the objective's values, i.e. NaN-free objectives); find_maximum_not_worse and the four 1-D convergence theorems are over R (standard real-number axioms, "
               "literals 1.618034, 0.3819660, 100.0, 2^-52 at their exact values; premise: the run returns); C11_nm_iter_nfunc and C11_minimize_terminates need no order law; "
               "hand-written model tied by differential correspondence including the full evaluation traces (bit-identical expected); the bracketing loop of the source has no iteration cap "
               "(model fuel 1000 -> FUEL), Brent's ITMAX = 100 and Nelder-Mead's NMAX = 5000 exits are modelled as EXIT; "
@@ -655,8 +682,11 @@ def generate(rng, tier):
             xl = c + rng.choice([-1, 1]) * s * 10 ** rng.uniform(-2, 2); xr = xl + rng.choice([-1, 1]) * s * 10 ** rng.uniform(-3, 3)
         if xl == xr: xr = xl + s
         r = rng.random()
-        if r < 0.12:
+        if r < 0.08:
             cs.append(Case(f"fmin_default {hx(xl)} {hx(xr)} {e}", ("fmin", kind, "default-tol"), info=dict(info, tol=3e-8)))
+        elif r < 0.12:
+            # Find_Maximum(f, xl, xr) without the tolerance, on the mirrored objective -1.0*f (a unimodal hump with the same maximiser)
+            cs.append(Case(f"fmax_default {hx(xl)} {hx(xr)} * {C(-1.0)} {e}", ("fmax", kind, "default-tol"), info=dict(info, tol=3e-8)))
         elif r < 0.3:
             cs.append(Case(f"fpair {hx(xl)} {hx(xr)} {hx(tol)} * {C(-1.0)} {e}", ("fpair", kind), info=dict(info, tol=tol, neg=True)))
         else:
